@@ -1083,6 +1083,14 @@ func randCacheConfig(rng *rand.Rand, focus string) (kioshun.Config, int, int) {
 	} else if rng.Intn(8) == 0 {
 		wmode = 1
 	}
+	if focus != "C09" && rng.Intn(8) == 0 {
+		// cost-aware admission with weights around perfect squares
+		conf.EvictionPolicy = kioshun.SieveTinyLFU
+		conf.MaxSize = pick(rng, []int64{8, 16, 24})
+		conf.MaxCost = pick(rng, []int64{300, 600})
+		conf.CostAdmission = pick(rng, []kioshun.CostAdmission{kioshun.CostAdmissionBalanced, kioshun.CostAdmissionBalanced, kioshun.CostAdmission(1)})
+		wmode = 4
+	}
 	pol := policyOf(conf)
 	if pol == kioshun.SieveTinyLFU && conf.MaxSize == 0 && conf.MaxCost > 0 {
 		conf.MaxSize = 16
@@ -1111,6 +1119,9 @@ func (r *cacheRun) pickCost(rng *rand.Rand, k int) int64 {
 			return -1 - rng.Int63n(3)
 		}
 		return rng.Int63n(4)
+	case 4:
+		// weights around perfect squares (k*k-1, k*k, k*k+1): the cost-aware admission scores take integer square roots
+		return pick(rng, []int64{3, 4, 5, 8, 9, 10, 15, 16, 17, 24, 25, 35, 36, 48, 63, 64, 99, 1, 2})
 	}
 	return 1
 }
